@@ -71,7 +71,8 @@ Definition obs_pv (w : world) (o : qobs) : pvs :=
   end.
 
 Definition queue_corr07 (w : world) (o : qobs) : bool :=
-  Bool.eqb (ob_pre o) (checkPreconditions w) && find_eqb (findVictims w) (ob_find o).
+  Bool.eqb (ob_pre o) (checkPreconditions w) && find_eqb (findVictims w) (ob_find o) &&
+  Bool.eqb (ob_pre2 o) (checkPreconditionsNoFreq (apply_outcome w (obs_outcome o))).
 
 (* everything downstream is computed from the potential victims the implementation reported *)
 Definition queue_corr08 (w : world) (o : qobs) : bool :=
@@ -91,8 +92,7 @@ Definition queue_corr08 (w : world) (o : qobs) : bool :=
   same_set (ob_marked o) (if o_ok oc then o_victims oc else []) &&
   listlistN_eqb (ob_announced o) (announced oc) &&
   preempting_agree (w_queues w') (ob_preempting o) &&
-  Bool.eqb (ob_triggered o) (k_triggered (w_ask w')) &&
-  Bool.eqb (ob_pre2 o) (checkPreconditionsNoFreq w').
+  Bool.eqb (ob_triggered o) (k_triggered (w_ask w')).
 
 Definition obs_victims (o : qobs) : list N := ob_marked o ++ concat (ob_announced o) ++ o_victims (obs_outcome o).
 Definition committed (o : qobs) : bool :=
@@ -236,7 +236,7 @@ Definition trigger_step (st : ustate) (qid : N) (whole : bool) (o : qsobs) : ust
                                         | Some lq, Some lo =>
                                             let out := quota_leaf_order w lq (snd c) (lb_sorted lo) in
                                             Some (out, ores_eqb (snd c) (lb_pre lo) && ores_eqb (lo_claimed out) (lb_claimed lo),
-                                                  quota_order_ok w lq (snd c) (lb_sorted lo))
+                                                  quota_order_ok w lq (lb_pre lo) (lb_sorted lo))
                                         | _, _ => None
                                         end) ctxs in
               let good := forallb (fun x => match x with Some (_, b, _) => b | None => false end) outs in
